@@ -916,6 +916,10 @@ class Evaluator:
                 return self.global_name(name, m)
         if isinstance(base, Sym) and base.kind == "super":
             return Sym("super-attr", (base, name))
+        if name == "SQL_CONTEXT" and isinstance(base, Sym):
+            # the context record of a query class only known symbolically: every field is re-derived from it
+            rec = Sym("attr", (base, name))
+            return CtxV({f: Sym("attr", (rec, f)) for f in CTX_FIELDS}, False, "rederived")
         return Sym("attr", (base, name))
 
     def e_Subscript(self, e, fr):
